@@ -310,7 +310,13 @@ func runJSONFormatters(rc *RunCtx) {
 			e := &el.Event{Type: el.EventType(typ), CreatedAt: created, Payload: payload, Formatted: map[string][]byte{}}
 			if tp.Choose(6, "nilmap") == 0 {
 				e.Formatted = nil
+			} else if tp.Choose(4, "stale-json") == 0 {
+				// the json slot is already taken (an earlier formatter, or stale data):
+				// the formatter is the last writer and must replace it
+				e.Formatted[el.JSONFormat] = []byte("stale, not even JSON")
+				simrt.Probe("json.slot-preoccupied")
 			}
+			staleBefore, hadStale := e.Formatted[el.JSONFormat]
 			which := tp.Choose(3, "node")
 			predMode := tp.Choose(4, "pred") // 0 absent, 1 true, 2 false, 3 error
 			predErr := errors.New("injected predicate error")
@@ -366,7 +372,7 @@ func runJSONFormatters(rc *RunCtx) {
 				if err == nil || out != nil {
 					rc.Failf("C14.unencodable", "forwarded", "payload %T cannot be encoded but Process returned (%v, %v)", payload, out, err)
 				}
-				if stored {
+				if stored && !(hadStale && bytes.Equal(val, staleBefore)) {
 					rc.Failf("C14.unencodable", "stored", "payload cannot be encoded but a json value was stored: %q", truncate(string(val), 200))
 				}
 				continue
@@ -744,7 +750,8 @@ func runCloudEvents(rc *RunCtx) {
 			var payload interface{}
 			var wantData interface{}
 			wantID := ""
-			kind := tp.Choose(6, "payload")
+			kind := tp.Choose(7, "payload")
+			dataMustBeAbsent := false
 			switch kind {
 			case 0:
 				payload, wantData = base, base
@@ -758,6 +765,9 @@ func runCloudEvents(rc *RunCtx) {
 				d := "just a string"
 				payload, wantData = &ceWithBoth{base, fmt.Sprintf("both-%d", i), d}, d
 				wantID = fmt.Sprintf("both-%d", i)
+			case 6:
+				payload = &ceWithData{base, nil} // Data() returns nil: no data, certainly not the payload itself
+				dataMustBeAbsent = true
 			case 4:
 				payload = &ceWithID{base, ""} // empty ID must be rejected
 			default:
@@ -885,6 +895,11 @@ func runCloudEvents(rc *RunCtx) {
 			gdv, _ := decodeJSON(doc["data"])
 			if wantData != nil && !reflect.DeepEqual(wdv, gdv) {
 				rc.Failf("C18.data", "", "data %s, expected %s", doc["data"], wd)
+			}
+			if dataMustBeAbsent {
+				if raw, has := doc["data"]; has && string(bytes.TrimSpace(raw)) != "null" {
+					rc.Failf("C18.data", "nil-data", "the payload's Data() returned nil, yet the document carries data %s", truncate(string(raw), 200))
+				}
 			}
 			// signature
 			_, hasSer := doc["serialized"]
